@@ -46,11 +46,32 @@ def split_defer_doc(rng):
     return (f'query Q {{ {parent} {{ {inner} {{ {a} }} ... @defer(label: "D") {{ {nn} {inner} {{ {b}{lab2} }} }}{extra} }}{close} }}')
 
 
+def overlap_defer_doc(rng):
+    """Two deferred fragments at different depths that share fields: the shared fields form a unit of work owned by
+    both fragments, and the payload that delivers it must name the id whose path is the longest (with the rest of the
+    way as subPath) whichever of the two completes first."""
+    leafs = ['name', 'age', 'active', 'role', 'blob', 'roles', 'tags', 'id', 'score']
+    inner = rng.choice(['best', 'nnBest', 'best'])
+    parent = rng.choice(['me', 'nnMe', 'users', 'me { best', 'users @stream(initialCount: 1)', 'me { nnBest'])
+    close = ' }' if '{' in parent else ''
+    shared = rng.sample(leafs, rng.randint(1, 2))
+    only_a = rng.sample([x for x in leafs if x not in shared], rng.randint(0, 2))
+    only_b = rng.sample([x for x in leafs if x not in shared], rng.randint(0, 2))
+    deeper = rng.choice(['', '', f' {inner} {{ ... @defer(label: "C") {{ {shared[0]} {rng.choice(leafs)} }} }}'])
+    a = f'... @defer(label: "A") {{ {rng.choice(["", "id ", "score "])}{inner} {{ {" ".join(shared + only_a)}{deeper} }} }}'
+    b = f'{inner} {{ {rng.choice(["", "id ", "name "])}... @defer(label: "B") {{ {" ".join(shared + only_b)} }} }}'
+    parts = [a, b]
+    rng.shuffle(parts)
+    return f'query Q {{ {parent} {{ {parts[0]} {parts[1]} }}{close} }}'
+
+
 def gen_request(seed, p_defer=0.35, p_stream=0.35):
     schema = rich_inc()
     rng = random.Random(seed)
     if seed % 11 == 10:
         return schema, split_defer_doc(rng), {}, rng
+    if seed % 11 == 9:
+        return schema, overlap_defer_doc(rng), {}, rng
     g = DocGen(schema, rng, ops=('query',), max_depth=3, p_defer=p_defer, p_stream=p_stream)
     if rng.random() < 0.3:
         g.op_dirs = ' @experimental_disableErrorPropagation'
